@@ -39,8 +39,10 @@ def gen(r, tier, i):
             ops.append({'form': 'template', 'path': p or ['c1']})
         elif k < 0.7:
             ops.append({'form': 'composite', 'path': p, 'k': r.randint(1, 2), 'tag': 'm%d' % len(ops)})
-        else:
+        elif k < 0.9:
             ops.append({'form': 'loose', 'path': p, 'tag': 'l%d' % len(ops), 'state': r.random() < 0.5})
+        else:
+            ops.append({'form': 'rewire', 'path': p})
     return {'k': r.randint(1, 3), 'nest': r.random() < 0.6, 'deriver': r.random() < 0.4,
             'path': [r.choice(['x', 'y', 'z']) for _ in range(r.randint(0, 3))],
             'ops': ops, 'init_n': r.randint(0, 9), 'host': r.choice(['empty', 'generated']),
@@ -243,6 +245,16 @@ def run(spec):
                 src = C(dict(cfg, k=op['k'])).generate()
                 merged_in.append((src, snap(src)))
                 M.merge(composite=src, path=p)
+            elif op['form'] == 'rewire':
+                # a port of the template's process p0 is wired again, under the same path: first with a
+                # dictionary topology, then with a plain path (a dictionary replaced by a non-dictionary)
+                first = {'topology': {'p0': {'S': {'_path': ('st',), 'n': ('n',)}}}}
+                second = {'topology': {'p0': {'S': ('st2',)}}}
+                M.merge(topology=first['topology'], path=p)
+                for key in model:
+                    model[key] = union(model[key], nestp(p, shape(first.get(key, {}), Process)))
+                M.merge(topology=second['topology'], path=p)
+                src = second
             else:
                 loose = {'processes': {op['tag']: P({'inc': 2}), 'sub': {op['tag'] + 'q': P({'inc': 3})}},
                          'topology': {op['tag']: {'S': ('st',)}, 'sub': {op['tag'] + 'q': {'S': ('..', 'st')}},
